@@ -27,6 +27,7 @@ META = {
 
 LEAVES = "abcdefg"
 ODD_NAMES = ["10", "9", "2", "1a", "B", "a", "_x"]  # lexicographic order differs from numeric order / case
+GLUED_NAMES = ["a", "bc", "ab", "c", "b", "abc", "1", "11", "x", "x1"]  # names that are prefixes / concatenations of one another
 
 
 def plan(tier, seed):
@@ -363,6 +364,8 @@ def run(ctx, spec):
             tree = nested if idx % 2 else RT.tolist(RT.mirror(_tup(nested)))
             if idx % 3 == 0:
                 tree = _rename_leaves(tree, dict(zip(LEAVES, ODD_NAMES)))
+            elif idx % 3 == 1 and n >= 3:
+                tree = _rename_leaves(tree, dict(zip(LEAVES, GLUED_NAMES[(idx // 3) % 4:])))
             check_roundtrip(ctx, tree)
             if ctx.too_many():
                 return
@@ -376,12 +379,18 @@ def run(ctx, spec):
                 continue
             sub = [t for k, t in enumerate(trip) if bits >> k & 1]
             check_triple_set(ctx, list(LEAVES[:n]), sub)
+            if n == 4 and bits % 5 == 0:
+                ren = dict(zip(LEAVES, GLUED_NAMES[bits % 3:]))
+                check_triple_set(ctx, [ren[x] for x in LEAVES[:n]], [tuple(ren[x] for x in t) for t in sub])
             if ctx.too_many():
                 return
     rng = ctx.rng("rand")
     for _ in range(spec["nrand"]):
         n = rng.choice([5, 5, 6])
-        leaves = list(LEAVES[:n]) if rng.random() < 0.7 else ODD_NAMES[:n]
+        r = rng.random()
+        leaves = list(LEAVES[:n]) if r < 0.5 else (ODD_NAMES[:n] if r < 0.7 else rng.sample(GLUED_NAMES, n))
+        if r >= 0.7:
+            ctx.count("glued_leaf_names")
         if rng.random() < 0.7:
             # mostly consistent: triples of a hidden tree, sometimes plus noise
             M, names = model_of(RT.random_binary(rng, leaves))
